@@ -62,19 +62,26 @@ func ValidateSchemaDocument(sd *SchemaDocument) (*Schema, error) {
 		switch def.Kind {
 		case Union:
 			for _, t := range def.Types {
-				schema.AddPossibleType(def.Name, schema.Types[t])
+				// an undeclared member is reported below; never store a nil entry
+				if member := schema.Types[t]; member != nil {
+					schema.AddPossibleType(def.Name, member)
+				}
 				schema.AddImplements(t, def)
 			}
 		case InputObject, Object:
 			for _, intf := range def.Interfaces {
 				schema.AddPossibleType(intf, def)
-				schema.AddImplements(def.Name, schema.Types[intf])
+				if intfDef := schema.Types[intf]; intfDef != nil {
+					schema.AddImplements(def.Name, intfDef)
+				}
 			}
 			schema.AddPossibleType(def.Name, def)
 		case Interface:
 			for _, intf := range def.Interfaces {
 				schema.AddPossibleType(intf, def)
-				schema.AddImplements(def.Name, schema.Types[intf])
+				if intfDef := schema.Types[intf]; intfDef != nil {
+					schema.AddImplements(def.Name, intfDef)
+				}
 			}
 		}
 	}
